@@ -729,12 +729,14 @@ def delete_raggedarray(ra):
     if not ra.accessmode == 'r+':
         raise OSError('Darr ragged array is read-only; set accessmode to '
                       '"r+" to change')
+    # subarrays first: this fails before anything is removed if the directory
+    # does not hold a ragged array (any more)
+    delete_array(ra._values)
+    delete_array(ra._indices)
     for fn in ra._protectedfiles:
         path = ra.path.joinpath(fn)
         if path.exists() and not path.is_dir():
             path.unlink()
-    delete_array(ra._values)
-    delete_array(ra._indices)
     try:
         ra._path.rmdir()
     except OSError as error:
